@@ -128,6 +128,7 @@ def build_generated(cases, tag):
     per = (len(cases) + nshards - 1) // nshards
     drv = open(os.path.join(common.HARNESS, "ductdrv", "duct_test.go")).read()
     with common.build_lock():
+        common.prune_gocache()
         w = common.prepare_harness()
         g = common.gen_dir("ductprog")
         want = {}
